@@ -45,9 +45,9 @@ REQUIRED_LABELS = {"all": ["backend:gaussian", "backend:bosonic", "backend:fock"
                            "api:fidelity", "api:purity", "api:marginal", "fn:displaced_squeezed_state", "fn:squeezed_state", "fn:coherent_state",
                            "fn:squeezed_cov"]}
 
-# AUDIT-FINDING msgate-ancilla-units: Result.ancillae_samples of MSgate(avg=False) scale with 1/sqrt(hbar) (ops.py MSgate._apply returns
+# finding F68 (fixed; formerly AUDIT-FINDING msgate-ancilla-units): Result.ancillae_samples of MSgate(avg=False) scale with 1/sqrt(hbar) (ops.py MSgate._apply returns
 # ancillae_val / s, MeasureHomodyne returns s * val); the comparison of the ancilla outcomes is switched off until that is decided
-CHECK_MS_ANCILLA = bool(os.environ.get("C15_CHECK_MS_ANCILLA"))  # set the variable to reproduce out/audit/C15-msgate-ancilla-units.json
+CHECK_MS_ANCILLA = True  # (finding F68, fixed in /repo: the comparison is on again)
 
 G_ALPH = ["Xgate", "Zgate", "Pgate", "CXgate", "CZgate", "Coherent", "DisplacedSqueezed", "Dgate", "Sgate", "BSgate", "Rgate", "S2gate",
           "LossChannel", "Thermal", "MZgate", "Fouriergate"]
@@ -505,7 +505,7 @@ def check_ps(ctx, case):
         bad = _compare_samples(_samples(res1, ops1), _samples(res2, ops2), h1, h2)
         if bad:
             return _fail(ctx, case, labels, "%s.samples_not_covariant" % be, bad, be)
-        if CHECK_MS_ANCILLA and ms_shot:  # AUDIT-FINDING msgate-ancilla-units
+        if CHECK_MS_ANCILLA and ms_shot:  # F68
             a1 = np.array(_flat([v for _, v in sorted((res1.ancillae_samples or {}).items())]), complex)
             a2 = np.array(_flat([v for _, v in sorted((res2.ancillae_samples or {}).items())]), complex)
             if a1.shape != a2.shape or float(np.max(np.abs(a1 / np.sqrt(h1) - a2 / np.sqrt(h2)))) > 1e-7 * (1 + float(np.max(np.abs(a1 / np.sqrt(h1))))):
